@@ -42,6 +42,10 @@ Bool3(b1) == {And(<<b1, b2, b3>>) : b2 \in TinyBool, b3 \in TinyBool}
          \cup {And(<<b1, Or(<<b2, b3>>)>>) : b2 \in TinyBool, b3 \in TinyBool}
          \cup {Or(<<Not(b1), And(<<b2, b3, b1>>)>>) : b2 \in TinyBool, b3 \in TinyBool}
          \cup {And(<<b1, b2, b3, Not(b1)>>) : b2 \in TinyBool, b3 \in TinyBool}
+         \* a negation that no relation can absorb: Not over a connective, alone and as an operand
+         \cup {Not(And(<<b1, b2>>)) : b2 \in TinyBool} \cup {Not(Or(<<b1, b2>>)) : b2 \in TinyBool}
+         \cup {Or(<<Not(And(<<b1, b2>>)), b3>>) : b2 \in TinyBool, b3 \in TinyBool}
+         \cup {And(<<b3, Not(Or(<<b1, b2, b3>>))>>) : b2 \in TinyBool, b3 \in TinyBool}
 CondS(b1) == {Cond(c, e1, e2) : c \in {b1} \cup Bool2(b1), e1 \in {X, N("2")}, e2 \in {Y, N("0.5")}}
 Cond3(b1) == {Cond(c, X, e2) : c \in Bool3(b1), e2 \in {Y, N("0.5")}}
 NestC(c1) == {Cond(c1, Cond(c2, X, N("2")), e3) : c2 \in TinyBool, e3 \in {Y, Cond(Rel("Gt", Y, N("0")), A, N("3"))}}
